@@ -16,7 +16,7 @@ MANIFEST = {
             "pairwise disjoint, so with distinct draws no (key, nonce) pair repeats and equal plaintexts give different ciphertexts (ideal GCM). Tie: the real library is run with "
             "os.urandom replaced by a recording stream over sequences of protect calls (equal and different arguments, cache reuse): the number, order and sizes of the draws and the "
             "resulting blob bytes equal the model's; shape kernels pin the generate_key / urandom call sites.",
-    "note": "That disjoint windows of the OS RNG are distinct byte strings is an assumption about os.urandom (RNG quality is outside the model). Distinctness of ephemeral PUBLIC keys needs injectivity of x -> g^x on the drawn range: partial.",
+    "note": "The symbolic instance sym does not satisfy IdealLaws literally (4-byte length prefixes wrap at 2^32: sym_not_ideal); the examples use the guarded instance symg (= sym on byte strings shorter than 2^32) for which symg_laws / symg_ideal are proved. A global distinctness hypothesis on fixed-length draws is unsatisfiable, so C19_fresh_sequence has a bounded variant restricted to the draws a history actually makes. That disjoint windows of the OS RNG are distinct byte strings is an assumption about os.urandom (RNG quality is outside the model). Distinctness of ephemeral PUBLIC keys needs injectivity of x -> g^x on the drawn range: partial.",
     "technique": "Coq proof (data-flow of explicit draws through the composition model; induction over call sequences) + recorded-RNG correspondence",
 }
 PARTIAL = ["C19_pubkey_partial: distinctness of the ephemeral PUBLIC keys of two calls needs injectivity of x -> g^x (resp. x -> x.G) on the drawn range; proved: the ephemeral private keys are distinct fresh draws"]
